@@ -20,6 +20,7 @@ import shutil
 from .core import CRASH_EXIT
 
 T0 = 1_000_000_000
+NS = 1_000_000_000
 
 
 def _sha(path):
@@ -31,7 +32,8 @@ class SimDir:
     def __init__(self, path):
         self.path = os.path.realpath(path)
         os.makedirs(self.path, exist_ok=True)
-        self.clock = T0
+        self.clock_ns = T0 * NS
+        self.clock = float(T0)
         self.known = {}  # name -> (size, sha, mtime_ns as stamped)
         self.pinned = {}  # name -> mtime set by future-dating (survives sync)
 
@@ -39,7 +41,9 @@ class SimDir:
         return os.path.join(self.path, name)
 
     def tick(self, dt):
-        self.clock += int(dt)
+        """dt in seconds (may be fractional; resolution 1 ms)."""
+        self.clock_ns += max(1_000_000, int(round(dt * 1000)) * 1_000_000)
+        self.clock = self.clock_ns / NS
 
     def names(self):
         return sorted(
@@ -53,7 +57,8 @@ class SimDir:
 
     def stamp(self, name, t):
         p = self.p(name)
-        os.utime(p, (t, t))
+        ns = int(round(t * 1000)) * 1_000_000
+        os.utime(p, ns=(ns, ns))
         st = os.stat(p)
         self.known[name] = (st.st_size, _sha(p), st.st_mtime_ns)
 
@@ -126,16 +131,26 @@ class _Proxy:
         self.__dict__["_failed"] = False
 
     def write(self, s):
+        """Counts BYTES (the property speaks of byte-prefixes): text is encoded
+        with the file's own encoding, so a cut can land inside a multi-byte
+        character."""
         e, fault = self._e, self._fault
         if self._failed:
             raise OSError(self._failed, os.strerror(self._failed), e["path"])
+        if isinstance(s, str):
+            enc = getattr(self._f, "encoding", None) or "utf-8"
+            data = s.encode(enc, errors=getattr(self._f, "errors", None) or "strict")
+        else:
+            data = bytes(s)
         if fault is not None:
             k = fault["offset"]
-            if e["n"] + len(s) >= k:
-                part = s[: k - e["n"]]
-                if part:
-                    self._f.write(part)
+            if e["n"] + len(data) >= k:
+                part = data[: k - e["n"]]
                 self._f.flush()
+                raw = getattr(self._f, "buffer", self._f)
+                if part:
+                    raw.write(part)
+                raw.flush()
                 e["n"] += len(part)
                 e["fault"] = fault["kind"]
                 self._seam.fired = fault["kind"]
@@ -145,7 +160,7 @@ class _Proxy:
                 self.__dict__["_failed"] = eno
                 raise OSError(eno, os.strerror(eno), e["path"])
         r = self._f.write(s)
-        e["n"] += len(s)
+        e["n"] += len(data)
         e["chunks"] += 1
         return r
 
